@@ -11,6 +11,8 @@ Open Scope N_scope.
 
 Definition pending_indep2 (o : op2) : bool := match o with OpLoad _ _ _ _ => true | _ => false end.
 
+Definition is_dup (o : op2) : bool := match o with OpDuplicate _ => true | _ => false end.
+
 Definition op2_handles (o : op2) : list id :=
   match o with
   | Op1 o1 => op_handles o1
@@ -116,6 +118,29 @@ Hint Resolve grows_ser_tail : grows.
 Lemma grows_f_serialize f : grows (f_serialize T tab_el tab_at tab_en check_fn float_fmt attr_schema_location f).
 Proof. unfold f_serialize. grows_tac. Qed.
 
+Lemma grows_run_op o : grows (run_op T tab_el tab_en check_fn LATEST root_attrs o).
+Proof. destruct o; cbn [run_op]; unfold welem, wunit; grows_tac. Qed.
+Lemma grows_duplicate m : grows (m_duplicate T tab_el tab_en check_fn LATEST root_attrs m).
+Proof.
+  intros w r w' E. unfold m_duplicate in E.
+  destruct (m_duplicate_body T LATEST root_attrs m w) as [[[c|e] w1]| |] eqn:Eb; try discriminate E.
+  - injection E as _ <-. exact (grows_duplicate_body m _ _ _ Eb).
+  - injection E as _ <-. destruct (grows_duplicate_body m _ _ _ Eb) as (G1 & G2 & G3).
+    unfold Grow, drop_models_files; cbn [w_next w_models w_files]. rewrite !firstn_length. repeat split; lia.
+Qed.
+Lemma grows_run_op2 o : pending_indep2 o = false -> grows (run2 o).
+Proof.
+  intros Hp. destruct o; try discriminate Hp; cbn [run_op2].
+  - apply grows_bind; [apply grows_run_op|intros ?; apply grows_ro; apply ro_ret].
+  - apply grows_bind; [apply grows_e_sort|intros ?; apply grows_ro; apply ro_ret].
+  - apply grows_bind; [apply grows_m_sort|intros ?; apply grows_ro; apply ro_ret].
+  - apply grows_bind; [apply grows_duplicate|intros ?; apply grows_ro; apply ro_ret].
+  - apply grows_bind; [apply grows_set_version|intros ?; apply grows_ro; apply ro_ret].
+  - apply grows_bind; [apply grows_ro; apply ro_check_compat|intros [errs mask]; apply grows_ro; apply ro_ret].
+  - apply grows_bind; [apply grows_f_serialize|intros ?; apply grows_ro; apply ro_ret].
+  - apply grows_bind; [apply grows_ro; apply ro_e_serialize|intros ?; apply grows_ro; apply ro_ret].
+Qed.
+
 Section Region.
 Variable P : id -> Prop.
 Variable PM : N -> Prop.
@@ -219,6 +244,21 @@ Proof.
   eapply irpq_bind; [apply irp_dup_membership; exact Hcids|solve [grows_tac]|]. intros _ _. apply irpq_ret. exact Hc.
 Qed.
 
+(* every operation except duplicate (its failure path shrinks the world again) and the pending load, for all bounds *)
+Theorem irp_run_op2L o : pending_indep2 o = false -> is_dup o = false -> op2_apart P PM PF o -> irp (run2 o).
+Proof.
+  intros Hp Hd (Hh & Hm & Hf). destruct o; try discriminate Hp; try discriminate Hd;
+    cbn [op2_handles op2_models op2_files] in Hh, Hm, Hf; cbn [run_op2].
+  - eapply irpq_bind; [apply (irp_run_opL T tab_el tab_en check_fn LATEST root_attrs P PM PF L LM LF o); split; assumption|solve [grows_tac]|].
+    intros v _. apply irpq_ret. exact I.
+  - eapply irpq_bind; [apply irp_e_sort; apply Hh; left; reflexivity|solve [grows_tac]|]. intros _ _. apply irpq_ret. exact I.
+  - eapply irpq_bind; [apply irp_m_sort; apply Hm; left; reflexivity|solve [grows_tac]|]. intros _ _. apply irpq_ret. exact I.
+  - eapply irpq_bind; [apply irp_set_version; apply Hf; left; reflexivity|solve [grows_tac]|]. intros _ _. apply irpq_ret. exact I.
+  - eapply irpq_bind; [apply irp_ro; apply ro_check_compat|solve [grows_tac]|]. intros [errs mask] _. apply irpq_ret. exact I.
+  - eapply irpq_bind; [apply irp_f_serialize; apply Hf; left; reflexivity|solve [grows_tac]|]. intros t _. apply irpq_ret. exact I.
+  - eapply irpq_bind; [apply irp_ro; apply ro_e_serialize|solve [grows_tac]|]. intros t _. apply irpq_ret. exact I.
+Qed.
+
 End Bounds.
 
 Notation irp := (CopyProofsIrp.irpq P PM PF (fun _ => True)).
@@ -250,19 +290,12 @@ Qed.
 (* ---------- the alphabet ---------- *)
 Theorem irp_run_op2 o : pending_indep2 o = false -> op2_apart P PM PF o -> irp (run2 o).
 Proof.
-  intros Hp (Hh & Hm & Hf). destruct o; try discriminate Hp; cbn [op2_handles op2_models op2_files] in Hh, Hm, Hf; cbn [run_op2].
-  4: { intros w r w' S E. apply wbind_inv in E as [(c & w1 & E1 & E2) | (e & E1 & ->)].
-       - apply wret_inv in E2 as (-> & ->). destruct (irpq_duplicate m _ _ _ S E1) as (S1 & Sm & _). auto.
-       - destruct (irpq_duplicate m _ _ _ S E1) as (S1 & Sm & _). split; [exact S1|]. split; [exact Sm|]. intros a [=]. }
-  all: apply irpq_of_L; intros L LM LF.
-  - eapply irpq_bind; [apply (irp_run_opL T tab_el tab_en check_fn LATEST root_attrs P PM PF L LM LF o); split; assumption|solve [grows_tac]|].
-    intros v _. apply irpq_ret. exact I.
-  - eapply irpq_bind; [apply irp_e_sort; apply Hh; left; reflexivity|solve [grows_tac]|]. intros _ _. apply irpq_ret. exact I.
-  - eapply irpq_bind; [apply irp_m_sort; apply Hm; left; reflexivity|solve [grows_tac]|]. intros _ _. apply irpq_ret. exact I.
-  - eapply irpq_bind; [apply irp_set_version; apply Hf; left; reflexivity|solve [grows_tac]|]. intros _ _. apply irpq_ret. exact I.
-  - eapply irpq_bind; [apply irp_ro; apply ro_check_compat|solve [grows_tac]|]. intros [errs mask] _. apply irpq_ret. exact I.
-  - eapply irpq_bind; [apply irp_f_serialize; apply Hf; left; reflexivity|solve [grows_tac]|]. intros t _. apply irpq_ret. exact I.
-  - eapply irpq_bind; [apply irp_ro; apply ro_e_serialize|solve [grows_tac]|]. intros t _. apply irpq_ret. exact I.
+  intros Hp Ha. destruct (is_dup o) eqn:Hd.
+  - destruct o; try discriminate Hd. cbn [run_op2].
+    intros w r w' S E. apply wbind_inv in E as [(c & w1 & E1 & E2) | (e & E1 & ->)].
+    + apply wret_inv in E2 as (-> & ->). destruct (irpq_duplicate m _ _ _ S E1) as (S1 & Sm & _). auto.
+    + destruct (irpq_duplicate m _ _ _ S E1) as (S1 & Sm & _). split; [exact S1|]. split; [exact Sm|]. intros a [=].
+  - apply irpq_of_L. intros L LM LF. apply irp_run_op2L; assumption.
 Qed.
 
 End Region.
